@@ -43,10 +43,12 @@ func (s *Snapshot) Aggregate(similar Similarity) *Aggregated {
 	type count struct {
 		ids   []int
 		first bool
+		// pos is the index in s.Goroutines of the first member.
+		pos int
 	}
 	b := map[*Signature]*count{}
 	// O(n²). Fix eventually.
-	for _, routine := range s.Goroutines {
+	for i, routine := range s.Goroutines {
 		found := false
 		for key, c := range b {
 			// When a match is found, this effectively drops the other goroutine ID.
@@ -68,13 +70,16 @@ func (s *Snapshot) Aggregate(similar Similarity) *Aggregated {
 			// Create a copy of the Signature, since it will be mutated.
 			key := &Signature{}
 			*key = routine.Signature
-			b[key] = &count{ids: []int{routine.ID}, first: routine.First}
+			b[key] = &count{ids: []int{routine.ID}, first: routine.First, pos: i}
 		}
 	}
 	bs := make([]*Bucket, 0, len(b))
+	pos := make(map[*Bucket]int, len(b))
 	for signature, c := range b {
 		sort.Ints(c.ids)
-		bs = append(bs, &Bucket{Signature: *signature, IDs: c.ids, First: c.first})
+		bucket := &Bucket{Signature: *signature, IDs: c.ids, First: c.first}
+		bs = append(bs, bucket)
+		pos[bucket] = c.pos
 	}
 	// Do reverse sort.
 	sort.SliceStable(bs, func(i, j int) bool {
@@ -93,8 +98,9 @@ func (s *Snapshot) Aggregate(similar Similarity) *Aggregated {
 			return len(r.IDs) > len(l.IDs)
 		}
 		// The buckets were collected from a map; break the tie so the order does
-		// not depend on its iteration order.
-		return l.IDs[0] < r.IDs[0]
+		// not depend on its iteration order. Goroutine IDs can repeat (e.g. two
+		// dumps pasted together), the position of the first member cannot.
+		return pos[l] < pos[r]
 	})
 	return &Aggregated{
 		Snapshot: s,
